@@ -121,6 +121,7 @@ pub fn scenario(role: Role, geo: (usize, u16, usize), seed: u64, handshake: bool
         handshake: handshake && role == Role::Sender,
         clean: flags.2,
         fates,
+        fates_at: 0,
         script,
         after,
         gap_ack: flags.0,
